@@ -6,10 +6,14 @@ Driver for C06.
 Op language (one op per line):
 
 * `load <rule>…` — `hotspot.ClearRules(); hotspot.LoadRules(rules)`; a rule is one token
-  `res;c|q;paramIndex;paramKey;threshold;paramsMaxCapacity;v=thr,v=thr…` (values: `i:<int>` an `int`,
+  `res;c|q|t;paramIndex;paramKey;threshold;paramsMaxCapacity;v=thr,v=thr…` — `c` a Concurrency rule; `q` a QPS/Reject
+  rule and `t` a QPS/Throttling rule, loaded by the harness with parameters under which they never block (`q`: threshold
+  10^9 per second; `t`: threshold 1 per second, so that every request closer than `batch` seconds to the previous one for
+  the value is *queued* — the slot sleeps on the virtual clock and goes on to the next rule — with MaxQueueingTimeMs 10^9);
+  the model carries them as inert controllers, the generator keeps batch counts ≤ 5 in their presence (C05 is about them) (values: `i:<int>` an `int`,
   `l:<int>` an `int64`, `s:<text>`, `b:0|1`, `nil`)
 * `flowblock <res>` — a flow rule with threshold 0 on `res` (every entry there is blocked by the flow slot)
-* `entry <id> <res> <val>… @key=val…` ⇒ `pass | block hot | block flow`
+* `entry <id> <res> [#batch] <val>… @key=val…` ⇒ `pass | block hot | block flow`
 * `exit <id>`
 * `args <id>` ⇒ the live entry's `Input.Args` (`none` if the entry is not live)
 * `pentry <id> <res> <val>… @key=val…` — the same `api.Entry` call made by another goroutine, which is parked at the
@@ -54,7 +58,7 @@ def parseRule? (s : String) : Option Rule :=
   | [res, kind, idx, key, thr, pmc, items] =>
     match idx.toInt?, thr.toInt?, pmc.toInt?, parseItems? items with
     | some idx, some thr, some pmc, some items =>
-      if kind == "c" || kind == "q" then
+      if kind == "c" || kind == "q" || kind == "t" then
         some { res := res, conc := kind == "c", idx := idx, key := key, thr := thr, pmc := pmc, items := items }
       else none
     | _, _, _, _ => none
@@ -68,11 +72,18 @@ def parseRules? (ts : List String) : Option (List Rule) :=
 /-- entry arguments: plain values are `WithArgs`, `@key=val` are attachments (a later key replaces an earlier one) -/
 def parseEntryArgs? (ts : List String) : Option (List Val × List (String × Val)) :=
   ts.foldl (fun acc t => acc.bind fun (as, ats) =>
-    if t.startsWith "@" then
+    if t.startsWith "#" then (if (t.drop 1).toString.toNat?.isSome then some (as, ats) else none)
+    else if t.startsWith "@" then
       match (t.drop 1).toString.splitOn "=" with
       | [k, v] => (parseVal? v).map fun v => (as, ats.filter (fun p => p.1 ≠ k) ++ [(k, v)])
       | _ => none
     else (parseVal? t).map fun v => (as ++ [v], ats)) (some ([], []))
+
+/-- `#n` = `WithBatchCount(n)` (default 1).  No modelled step reads the batch count: a concurrency cell moves by one unit
+    per admitted entry whatever the batch.  The only place where it matters for the op language is the auxiliary flow
+    rule with threshold 0, which lets a batch of 0 through: such an op is not well-formed. -/
+def batchOf (ts : List String) : Nat :=
+  ts.foldl (fun acc t => if t.startsWith "#" then ((t.drop 1).toString.toNat?).getD acc else acc) 1
 
 def showRes : Res → String
   | .pass => "pass"
@@ -89,13 +100,13 @@ def stepModel (s : St) (ts : List String) (_ : String) : St × Option String :=
   | ["flowblock", res] => (step s (.flowBlock res), none)
   | "entry" :: id :: res :: rest => match parseEntryArgs? rest with
     | some (as, ats) =>
-      if s.used id then (s, some "bad-op") else
+      if s.used id || (batchOf rest == 0 && s.fb.contains res) then (s, some "bad-op") else
       let r := entry s id res as ats
       (r.1, some (showRes r.2))
     | none => (s, some "bad-op")
   | "pentry" :: id :: res :: rest => match parseEntryArgs? rest with
     | some (as, ats) =>
-      if s.used id then (s, some "bad-op") else (check s id res as ats, none)
+      if s.used id || (batchOf rest == 0 && s.fb.contains res) then (s, some "bad-op") else (check s id res as ats, none)
     | none => (s, some "bad-op")
   | ["resume", id] =>
     let r := commit s id
@@ -206,7 +217,7 @@ def stepOracle (s : OSt) (ts : List String) (line : String) : OSt × Option Stri
   | ["flowblock", res] => ({ s with fb := res :: s.fb }, none)
   | "entry" :: id :: res :: rest => match parseEntryArgs? rest, res? with
     | some (as, ats), some got =>
-      if used id then (s, some "bad-op") else
+      if used id || (batchOf rest == 0 && s.fb.contains res) then (s, some "bad-op") else
       let s := { s with peak := max s.peak (s.pend.length + 1) }
       let fin (s : OSt) : OSt := if got == "pass" then addLive s id res as ats else s
       if s.fb.contains res then
@@ -223,7 +234,7 @@ def stepOracle (s : OSt) (ts : List String) (line : String) : OSt × Option Stri
     | _, _ => (s, some "bad-op")
   | "pentry" :: id :: res :: rest => match parseEntryArgs? rest with
     | some (as, ats) =>
-      if used id then (s, some "bad-op") else
+      if used id || (batchOf rest == 0 && s.fb.contains res) then (s, some "bad-op") else
       let s := { s with peak := max s.peak (s.pend.length + 1) }
       let p0 : OPend := { id := id, res := res, args := as, atts := ats, fbAtCheck := false,
                           noClaim := s.stale.contains res, overAtCheck := false, claimBlock := false,
